@@ -315,11 +315,29 @@ func TestC13_PruneNeverJailsEvidenceGivers(t *testing.T) {
 		shares := gen.Shares(t, n, "stake")
 		stakes := make([]int64, n)
 		total := new(big.Int)
-		for i, s := range shares {
-			// keep stakes in a range where nobody exceeds the 25 % jailing protection too often; scale to >= 1e6
-			v := new(big.Int).Mod(s, big.NewInt(400)).Int64() + 20
-			stakes[i] = v * 1_000_000
-			total.Add(total, big.NewInt(stakes[i]))
+		boundary := rapid.IntRange(0, 2).Draw(t, "tenPercentBoundary") == 0
+		if boundary {
+			// validator 0 holds exactly floor(total/10) (+0/+1 ugrain) of a total that is not a multiple of 10
+			n = rapid.IntRange(5, 7).Draw(t, "nValsBoundary")
+			stakes = make([]int64, n)
+			a := int64(rapid.IntRange(20, 60).Draw(t, "tenth")) * 1_000_000
+			r := int64(rapid.IntRange(1, 9).Draw(t, "remainder"))
+			rest := 9*a + r
+			stakes[0] = a + int64(rapid.IntRange(0, 1).Draw(t, "plusOne"))
+			for i := 1; i < n; i++ {
+				stakes[i] = rest / int64(n-1)
+			}
+			stakes[n-1] += rest - (rest/int64(n-1))*int64(n-1)
+			for _, st := range stakes {
+				total.Add(total, big.NewInt(st))
+			}
+		} else {
+			for i, s := range shares {
+				// keep stakes in a range where nobody exceeds the 25 % jailing protection too often; scale to >= 1e6
+				v := new(big.Int).Mod(s, big.NewInt(400)).Int64() + 20
+				stakes[i] = v * 1_000_000
+				total.Add(total, big.NewInt(stakes[i]))
+			}
 		}
 		c, err := chain.New(chain.Options{Salt: salt, Stakes: stakes, InitialHeight: 44, Users: []string{"ub"}, EvmChains: []chain.EvmChain{{RefID: c13Chain, ChainID: 1}}})
 		if err != nil {
@@ -379,6 +397,12 @@ func TestC13_PruneNeverJailsEvidenceGivers(t *testing.T) {
 		var txs [][]byte
 		for _, v := range c.Vals {
 			g := rapid.IntRange(-1, 2).Draw(t, "evidenceGroup")
+			if boundary {
+				g = -1
+				if v.Index == 0 {
+					g = 0
+				}
+			}
 			if g < 0 {
 				continue
 			}
@@ -452,6 +476,9 @@ func TestC13_PruneNeverJailsEvidenceGivers(t *testing.T) {
 			band = ">66% split"
 		}
 		labels := []string{"attested " + band, fmt.Sprintf("jailed=%d", len(newly)), fmt.Sprintf("pruned=%v", pruned)}
+		if boundary {
+			labels = append(labels, "tenPercentBoundary")
+		}
 		evid.Case(t.Name(), fmt.Sprintf("stakes=%v groups=%v report=%s", stakes, group, report), pruned && len(gave) > 0 && len(gave) < n, labels, func() any {
 			return map[string]any{"stakes": stakes, "evidenceGroupByValidator": group, "report": report, "attestedPercent": pct, "jailed": newly}
 		})
